@@ -3,7 +3,6 @@ package generic
 import (
 	"fmt"
 	"sync"
-	"unsafe"
 
 	"github.com/cloudwego/dynamicgo/internal/rt"
 	"github.com/cloudwego/dynamicgo/meta"
@@ -1229,6 +1228,8 @@ func (self *Value) SetMany(pathes []PathNode, opts *Options, root *Value, addres
 	originLen := len(self.raw()) // current buf length
 	rootLen := len(root.raw())   // root buf length
 	isPacked := self.t == proto.LIST && isPackedList(self.raw(), self.Desc)
+	// new children are inserted at the end of the current node, this is the position of that in the root's buffer
+	insertAt := rt.PtrOffset(uintptr(self.v), uintptr(root.v)) + originLen
 
 	// get original values
 	if err = self.getMany(ps.a, true, opts); err != nil {
@@ -1238,12 +1239,12 @@ func (self *Value) SetMany(pathes []PathNode, opts *Options, root *Value, addres
 	// handle not found values
 	for i, a := range ps.a {
 		if a.IsUnKnown() {
-			var sp unsafe.Pointer
-			if self.t.IsComplex() {
-				sp = rt.AddPtr(self.v, uintptr(self.l))
+			// the node carries no address: the end of the current node is often the end of the buffer, and a pointer
+			// behind an allocation (kept in the pooled slice) makes the garbage collector mark (or die on) the neighbouring object
+			ps.a[i].Node = errNotFoundLast(nil, self.t)
+			if err = ps.a[i].Node.setNotFound(a.Path, &ps.b[i].Node, self.Desc, isPacked); err != nil {
+				goto ret
 			}
-			ps.a[i].Node = errNotFoundLast(sp, self.t)
-			ps.a[i].Node.setNotFound(a.Path, &ps.b[i].Node, self.Desc, isPacked)
 			if self.t == proto.LIST || self.t == proto.MAP {
 				self.size += 1
 			}
@@ -1252,7 +1253,9 @@ func (self *Value) SetMany(pathes []PathNode, opts *Options, root *Value, addres
 
 	// if current is not root node, update current Node length
 	if !self.IsRoot {
-		err = self.replaceMany(ps)
+		if err = self.replaceMany(ps, originLen); err != nil {
+			goto ret
+		}
 		if self.t == proto.LIST && isPacked {
 			currentAdd := []int{0, -1}
 			currentPath := []Path{NewPathIndex(-1), NewPathIndex(-1)}
@@ -1274,7 +1277,9 @@ func (self *Value) SetMany(pathes []PathNode, opts *Options, root *Value, addres
 	}
 
 	// update root length
-	err = root.replaceMany(ps)
+	if err = root.replaceMany(ps, insertAt); err != nil {
+		goto ret
+	}
 	root.updateByteLen(rootLen, address, isPacked, path...)
 ret:
 	ps.b = nil
